@@ -26,12 +26,13 @@ literal-index table.  Proved here, for all stores:
   literal names — `compile_ren`, by induction over the traversal, the output list and the function worklist).
 * `compile_after_history_fails` / `after_history_fails_alike` — **failing compilations**: a compilation that fails in a fresh
   process (duplicate input names, a record of the wrong kind, …) fails with the same error after any history
-  (`Lemmas/MonoErr.lean`: monotonicity of failing compilations in the store).  Excluded: the model's "out of fuel" error,
-  which no reachable store produces in the K-runs but whose impossibility is not proved here.
+  (`Lemmas/MonoErr.lean`: monotonicity of failing compilations in the store; `Lemmas/Fuel.lean`: the model's fuel never runs
+  out, on any store); `after_history_same_answer` puts both directions together.
 -/
 import NadaVerif.Lemmas.Mono
 import NadaVerif.Lemmas.Shift
 import NadaVerif.Lemmas.MonoErr
+import NadaVerif.Lemmas.Fuel
 import NadaVerif.Lemmas.Exact
 import NadaVerif.Props.C01
 
@@ -174,14 +175,25 @@ theorem compile_after_history_fails (n : Nat) (hist : List (Id × AstOp)) (lits 
   rw [← hops] at h2
   exact h2
 
-/-- for outputs declared on the program's own registers: whatever the fresh compilation answers — a MIR, or an error other
-than running out of fuel — the compilation after the history answers the same, renamed -/
+/-- for outputs declared on the program's own registers: whatever the fresh compilation answers — a MIR or an error — the
+compilation after the history answers the same, renamed (the model's fuel never runs out: `compile_ne_unsupported`; an id
+is never missing: `C01.trace_compile_no_missing`) -/
 theorem after_history_fails_alike (n : Nat) (hist : List (Id × AstOp)) (lits : List String) (cs : List Cmd)
     (outs : List OutDecl) (ho : C01.OutsFromRegs (runCmds {} cs).1.regs outs) (e : Err)
-    (hc : compile (runCmds {} cs).1.st outs = .error e) (hu : e ≠ .unsupported) :
+    (hc : compile (runCmds {} cs).1.st outs = .error e) :
     compile (runCmds { st := ⟨n, hist, lits⟩ } cs).1.st (outs.map (OutDecl.ren (histRen n hist lits cs))) = .error e :=
   compile_after_history_fails n hist lits cs outs e hc
-    (fun hk => C01.trace_compile_no_missing cs outs ho (hk ▸ hc)) hu
+    (fun hk => C01.trace_compile_no_missing cs outs ho (hk ▸ hc))
+    (fun hu => compile_ne_unsupported _ outs (hu ▸ hc))
+
+/-- **Whatever the fresh compilation answers, the compilation after any history answers the same, renamed.** -/
+theorem after_history_same_answer (n : Nat) (hist : List (Id × AstOp)) (lits : List String) (cs : List Cmd)
+    (outs : List OutDecl) (ho : C01.OutsFromRegs (runCmds {} cs).1.regs outs) :
+    compile (runCmds { st := ⟨n, hist, lits⟩ } cs).1.st (outs.map (OutDecl.ren (histRen n hist lits cs))) =
+      (compile (runCmds {} cs).1.st outs).map (MirProg.ren (histRen n hist lits cs)) := by
+  cases hc : compile (runCmds {} cs).1.st outs with
+  | ok m => exact compile_after_history n hist lits cs outs m hc
+  | error e => exact after_history_fails_alike n hist lits cs outs ho e hc
 
 /-- the outputs of the later compilation are the same registers: an output declared on register `r` of the fresh run
 is declared, after the history, on the same register, whose value carries the shifted id -/
